@@ -89,6 +89,13 @@ POOL = {
     6: dict(name="DTCWTInverse()", make=lambda: pw.DTCWTInverse(),
             args={1: lambda dt: _pyr_dtcwt((1, 2, 10, 12), dt, 61), 2: lambda dt: _pyr_dtcwt((1, 1, 7, 9), dt, 62),
                   3: lambda dt: _pyr_dtcwt((1, 1, 18, 20), dt, 63)}),
+    7: dict(name="DWTForward(J=2,db2,periodic)", make=lambda: pw.DWTForward(J=2, wave="db2", mode="periodic"),
+            args={1: lambda dt: _rand((1, 2, 9, 12), dt, 11), 2: lambda dt: _rand((2, 1, 8, 8), dt, 12),
+                  3: lambda dt: _rand((1, 1, 17, 20), dt, 13)}),
+    9: dict(name="DWT1DForward(J=2,db3,symmetric)", make=lambda: pw.DWT1DForward(J=2, wave="db3", mode="symmetric"),
+            args={1: lambda dt: _rand((2, 2, 17), dt, 31), 2: lambda dt: _rand((1, 3, 8), dt, 32), 3: lambda dt: _rand((1, 1, 25), dt, 33)}),
+    11: dict(name="DWT1DForward(J=2,sym3,periodic)", make=lambda: pw.DWT1DForward(J=2, wave="sym3", mode="periodic"),
+             args={1: lambda dt: _rand((2, 2, 17), dt, 31), 2: lambda dt: _rand((1, 3, 8), dt, 32), 3: lambda dt: _rand((1, 1, 25), dt, 33)}),
 }
 
 
